@@ -39,8 +39,10 @@ def cases(tier, seed):
         for d in (1, 2):
             for s in (1, 2):
                 for bn in (False, True):
-                    for pad in ('causal', 'same'):
+                    for pad in ('causal', 'same', 'causalv'):
                         if pad == 'same' and (s == 2 or (tier == 'quick' and d == 2)):
+                            continue
+                        if pad == 'causalv' and tier == 'quick' and (d == 2 or s == 2 or bn or k not in (2, 3, 4, 7, 12)):
                             continue
                         if tier == 'quick' and d == 2 and k not in (2, 3, 4, 8):
                             continue
